@@ -1,0 +1,102 @@
+//go:build verif
+
+package excelize
+
+import (
+	"fmt"
+	"math"
+	"sort"
+	"strings"
+
+	"github.com/xuri/efp"
+)
+
+// VerifC09Arg is a canonical, comparable description of a formulaArg.
+type VerifC09Arg struct {
+	Kind string // num | bool | str | err | empty | matrix | list | unknown
+	Bits uint64 // IEEE-754 bits of Number (num, bool)
+	Str  string // String (str) / error code (err)
+	Rows int    // matrix rows
+	Cols int    // matrix columns of the first row
+}
+
+func verifC09Arg(a formulaArg) VerifC09Arg {
+	switch a.Type {
+	case ArgNumber:
+		if a.Boolean {
+			return VerifC09Arg{Kind: "bool", Bits: math.Float64bits(a.Number)}
+		}
+		return VerifC09Arg{Kind: "num", Bits: math.Float64bits(a.Number)}
+	case ArgString:
+		return VerifC09Arg{Kind: "str", Str: a.String}
+	case ArgError:
+		return VerifC09Arg{Kind: "err", Str: a.String}
+	case ArgEmpty:
+		return VerifC09Arg{Kind: "empty"}
+	case ArgMatrix:
+		r := VerifC09Arg{Kind: "matrix", Rows: len(a.Matrix)}
+		if len(a.Matrix) > 0 {
+			r.Cols = len(a.Matrix[0])
+		}
+		return r
+	case ArgList:
+		return VerifC09Arg{Kind: "list", Rows: len(a.List)}
+	}
+	return VerifC09Arg{Kind: "unknown"}
+}
+
+func verifC09Ctx(f *File, sheet, cell string) *calcContext {
+	return &calcContext{
+		entry:             fmt.Sprintf("%s!%s", sheet, cell),
+		maxCalcIterations: f.options.MaxCalcIterations,
+		iterations:        make(map[string]uint),
+		iterationsCache:   make(map[string]formulaArg),
+	}
+}
+
+// VerifC09EvalTokens runs the real evalInfixExp on an arbitrary token list
+// (an over-approximation of what the efp tokenizer can emit) with a fresh
+// calculation context, exactly as calcCellValue does after tokenizing.
+// A panic is NOT recovered here: the caller decides.
+func VerifC09EvalTokens(f *File, sheet, cell string, tokens []efp.Token) (VerifC09Arg, error) {
+	arg, err := f.evalInfixExp(verifC09Ctx(f, sheet, cell), sheet, cell, tokens)
+	return verifC09Arg(arg), err
+}
+
+// VerifC09CalcTrace evaluates a cell through calcCellValue with a fresh
+// context (as CalcCellValue does) and returns the result together with the
+// per-reference visit counters of the circular-reference cut-off
+// ("Sheet!Cell=n", sorted) and the number of cached references.
+func VerifC09CalcTrace(f *File, sheet, cell string) (VerifC09Arg, string, error) {
+	ctx := verifC09Ctx(f, sheet, cell)
+	arg, err := f.calcCellValue(ctx, sheet, cell)
+	keys := make([]string, 0, len(ctx.iterations))
+	for k := range ctx.iterations {
+		keys = append(keys, k)
+	}
+	sort.Strings(keys)
+	var b strings.Builder
+	for i, k := range keys {
+		if i > 0 {
+			b.WriteByte(',')
+		}
+		fmt.Fprintf(&b, "%s=%d", k, ctx.iterations[k])
+	}
+	return verifC09Arg(arg), b.String(), err
+}
+
+// VerifC09Priority exposes getPriority.
+func VerifC09Priority(t efp.Token) int { return getPriority(t) }
+
+// VerifC09DefinedNames is a canonical listing of the workbook's defined names.
+func VerifC09DefinedNames(f *File) string {
+	var out []string
+	for _, dn := range f.GetDefinedName() {
+		out = append(out, fmt.Sprintf("%s|%s|%s", dn.Scope, dn.Name, dn.RefersTo))
+	}
+	sort.Strings(out)
+	return strings.Join(out, ";")
+}
+
+// VerifC09FormulaChecked reports the evaluator's "array formulas transformed" flag.
+func VerifC09FormulaChecked(f *File) bool { return f.formulaChecked }
